@@ -79,7 +79,7 @@ VARIANTS += [
 VARIANTS += [
     # reverting fix b31d72a
     fire("r4-memo-numeric-raw-values",
-         [(CBD, "        elif isinstance(obj, (int, float)):\n            # 1, 1.0 and True (or 0.0 and -0.0) are equal as keys but are\n            # different literals\n            return (type(obj).__name__, repr(obj))\n", "")],
+         [(CBD, "        elif isinstance(obj, Number):\n            # 1, 1.0 and True (or 0.0 and -0.0, or equal numbers of other\n            # numeric types) are equal as keys but are different literals\n            return (type(obj).__name__, repr(obj))\n", "")],
          ("*", "GateMemoizer:memo-key:numeric-literals"), ("C07", "C01")),
     # reverting fix 672647c
     fire("r4-lexer-number-not-finite",
